@@ -28,6 +28,18 @@ MISSED = [
  ("C04-d (target wins exact target/decoy score ties)", "continuous scores; tree probabilities tie only among low-scoring nulls", "`coarse` class: 3/5-level saturating scores straight through `assign_confidence`, 20 alphas up to 0.71, 200 replicates per cell, no learning slack"),
  ("C09-d (rollup reads earlier `rollup.*` outputs left in the input directory)", "`brew_rollup` had no history workload", "`rollup_history` class: 1..3 earlier rollups (other input sets, src = dest / other / `x/../src`, completed or aborted), byte comparison with a pristine directory"),
  ("C11-d (`q < fdr` instead of `<=` for the 0-anchor)", "test FDRs 0.01 / 0.05 / 0.2 are not representable in float32, so q never *equals* the threshold", "test FDRs 0.25 and 0.5; `folds_with_q_equal_to_threshold` counted"),
+ ("C03-e (CLI sorts the input files but not the prefixes)", "the CLI was only run on one file", "`cli_multi` class: 2..3 files in non-sorted order, per-stem files judged"),
+ ("C04-e (capped training rows of every file but the last drawn from the last file's indices)", "C04 modelled one collection (C02 caught it at once)", "two-collection replicates in C04"),
+ ("C05-e (ensemble prediction chunks re-checked for both labels)", "no ensemble runs among the chunk-size variants", "every sixth C05 table rescored with `ensemble=True`"),
+ ("C06-e (SQLite writer stores score and PEP in each other's columns for rolled-up levels)", "only text result files were read", "SQLite result database compared with the text files in C06 `files`"),
+ ("C10-e (`read_pin` hands exp/calc mass names on in swapped positions)", "optional column names were only auto-detected", "explicit column keywords, and str / Path / list / tuple path forms (the latter exposed **D22**)"),
+ ("C11-e (CLI calibrates at `--train_fdr`)", "C11 drove the API only", "`cli` class with the recording model injected into the command-line entry point"),
+ ("C12-e (refit of a trained model keeps the stale feature order)", "every model was fitted once", "second `fit()` with moved feature columns; `predict()` compared with the estimator's own last training-time scores"),
+ ("C13-e (class-level shared reader arguments)", "one delimiter, one reader alive at a time", "explicit `sep` values and bystander readers / writers with another delimiter"),
+ ("C14-e (`merge_sort` ignores its `score_column`)", "the column was always called `score`", "caller-chosen column names with an unrelated `score` column beside them"),
+ ("C15-e (CLI drops `--clip_nterm_methionine`)", "digest options never went through the CLI", "`cli_digest` class"),
+ ("C19-e (first PSM joined with the default separator) ", "only the default protein separator, only the function", "caller-given separators through function and tool `main()` (the latter with a leftover output file exposed **D23**)"),
+ ("C20-e (`exclude_features` accumulates in a module-level list)", "one call per process state", "default call repeated after a call with `exclude_features`"),
  ("C12-d (new scoring block size, last row unscored when n % size == 1)", "the constant did not exist when the monitors were written; tables are far smaller than its default", "tunables are discovered in `mokapot.constants` at run time; C05 adds a variant per discovered constant, C12 a metamorphic refit under small values of it"),
 ]
 seed_rows = ["| seeded change | needs | result |", "|---|---|---|"]
